@@ -18,7 +18,9 @@
 (***************************************************************************)
 EXTENDS PyCdlibModel, Json, IOUtils, TLCExt
 
-Input == JsonDeserialize(IOEnv.TRACE_FILE)
+\* JsonDeserialize is re-evaluated on every use: parse once into a TLC register in TInit
+\* (validation runs with -workers 1)
+Input == TLCGet(1)
 
 \* realisation tables as literals (module generated per run; literal constants are
 \* evaluated once, definitions over the deserialised input were re-evaluated per use)
@@ -133,7 +135,8 @@ ApiStep(e) ==
       [] r.out = "either" /\ e.res = "ok"  -> Judge(e, "accept", r.acc, r.why)
       [] r.out = "either" /\ e.res # "ok"  -> Judge(e, "refused", st, r.why)
 
-TInit == /\ tid \in 1..Len(Traces)
+TInit == /\ TLCSet(1, JsonDeserialize(IOEnv.TRACE_FILE))
+         /\ tid \in 1..Len(Traces)
          /\ l = 1
          /\ st = Uninit
          /\ status = "run"
